@@ -28,9 +28,10 @@ from __future__ import annotations
 PROPERTY = "C30"
 RULE = (
     "sweep: EVERY (T,k,start) with 1<=T<=Tmax, 1<=k<=kmax, 0<=start<T (quick 14/5, thorough 40/8) x {plain float64, "
-    "one rotating variant pipeline (quick: on every second configuration)}; random/ramp/constant/mixed-magnitude histories over 1-3 named fields with "
-    "singleton and scalar shapes; every t>=start decompressed and judged.  jit: sampled configurations with a traced "
-    "time step.  dtype: conversion table with special values.  A signature is (kind, pipeline, T, k, start) of a "
+    "one rotating variant pipeline (quick: on every second configuration)}; random/ramp/constant/mixed-magnitude histories on one "
+    "(2,) field; every t>=start decompressed and judged.  jit: sampled configurations with a traced time step over 1-3 "
+    "named fields with singleton and scalar shapes.  dtype: conversion table with special values.  stack: two stacked "
+    "filters.  A signature is (kind, pipeline, T, k, start) of a "
     "configuration in which at least one non-zero value was compared; all-zero histories are trivial."
 )
 REQUIRED_COUNTERS = ["saved_step_checks", "interpolated_step_checks", "widening_roundtrip_checks", "traced_step_checks"]
